@@ -53,6 +53,10 @@ func universes(thorough bool) []*Universe {
 		return q
 	}
 	all := []string{"a", "b", "ab", "\x00", "\xff", ""}
+	keyVals := []string{"1"}
+	if thorough {
+		keyVals = []string{"", "1"}
+	}
 	us := []*Universe{
 		{
 			// sequence numbers per bucket, reset by delete + recreate
@@ -67,7 +71,7 @@ func universes(thorough bool) []*Universe {
 		},
 		{
 			// byte order of the whole key alphabet in one bucket
-			Name: "keys", Locs: [][]string{locRoot}, Keys: all, SeekKeys: all, Vals: []string{"1"}, Walk: true, CurDel: true,
+			Name: "keys", Locs: [][]string{locRoot}, Keys: all, SeekKeys: all, Vals: keyVals, Walk: true, CurDel: true,
 			MaxOps: 2, ReopenAll: true, MaxEntries: 5,
 		},
 		{
